@@ -103,6 +103,35 @@ def den_bool_b(o):
     return W.interpret(t, DEFS)
 
 
+def singletons_intact():
+    return hb.TRUE.con_val is True and hb.TRUE.sym_val is None and hb.FALSE.con_val is False and hb.FALSE.sym_val is None
+
+
+def restore_singletons():
+    hb.TRUE.con_val, hb.TRUE.sym_val, hb.FALSE.con_val, hb.FALSE.sym_val = True, None, False, None
+
+
+def replay_singletons(method):
+    """native: the comparison of a symbolic word with itself, then the concrete-ness queries on TRUE/FALSE"""
+
+    def replay(r):
+        x = hb.HalmosBitVec(z3.BitVec("x", 256))
+        try:
+            res = getattr(x, method)(x)
+            bad = not singletons_intact()
+            detail = f"x.{method}(x) for a symbolic word x returns {'TRUE' if res is hb.TRUE else 'FALSE' if res is hb.FALSE else res!r}; afterwards TRUE=(con_val={hb.TRUE.con_val!r}, sym_val={hb.TRUE.sym_val!r}) FALSE=(con_val={hb.FALSE.con_val!r}, sym_val={hb.FALSE.sym_val!r})"
+            if bad:
+                try:
+                    int(res)
+                except Exception as e:  # noqa
+                    detail += f"; int(result) raises {type(e).__name__}: {e}"
+        finally:
+            restore_singletons()
+        return {"reproduced": bad, "detail": detail, "inputs": ["x", "x"]}
+
+    return replay
+
+
 def check_inv(ctx, r, size, tag="result"):
     """class invariant of a result value"""
     if type(r) is hb.HalmosBitVec:
@@ -124,7 +153,12 @@ def check_inv(ctx, r, size, tag="result"):
             ctx.oblige(f"inv/{tag}-flag", z3.BoolVal(False))
     elif type(r) is hb.HalmosBool:
         if r is hb.TRUE or r is hb.FALSE:
-            ctx.oblige(f"inv/{tag}-bool", z3.BoolVal(True))
+            # the singletons are shared by every word of every path: no operation may re-initialise
+            # them (python runs __init__ on whatever __new__ returns)
+            ok = singletons_intact()
+            ctx.oblige(f"inv/{tag}-bool", z3.BoolVal(ok), info={"TRUE": (repr(hb.TRUE.con_val), repr(hb.TRUE.sym_val)), "FALSE": (repr(hb.FALSE.con_val), repr(hb.FALSE.sym_val))})
+            if not ok:
+                restore_singletons()
         else:
             ok = r.con_val is None and isinstance(r.sym_val, z3.BoolRef)
             ctx.oblige(f"inv/{tag}-bool", z3.BoolVal(ok))
@@ -357,7 +391,7 @@ def bv_binary_case(method, ka, kb, size=256):
     def harness(interp):
         ctx = interp.ctx
         a = mk_bv(ctx, "a", ka, size)
-        b = mk_bv(ctx, "b", kb, size)
+        b = a if kb == "same" else mk_bv(ctx, "b", kb, size)  # 'same': the two operands are one term (DUP1; op)
         kwargs = kwf(size) if kwf else {}
         ok, r = guarded(interp, lambda: call_method(interp, a, method, [b], kwargs))
         if not ok:
@@ -372,8 +406,8 @@ def bv_binary_case(method, ka, kb, size=256):
         f"{PROP}/bitvec.HalmosBitVec.{method}",
         f"{kname(ka)},{kname(kb)}@{size}",
         harness,
-        replay=replay_bv_method(method, spec, [ka, kb], size, kwf),
-        sources=(f"halmos.bitvec:HalmosBitVec.{method}", "halmos.bitvec:HalmosBitVec.__init__", "halmos.bitvec:HalmosBitVec.__new__"),
+        replay=replay_singletons(method) if kb == "same" and spec in W.BOOL_RESULT else replay_bv_method(method, spec, [ka, ka if kb == "same" else kb], size, kwf),
+        sources=(f"halmos.bitvec:HalmosBitVec.{method}", "halmos.bitvec:HalmosBitVec.__init__", "halmos.bitvec:HalmosBitVec.__new__", "halmos.bitvec:HalmosBool.__init__", "halmos.bitvec:HalmosBool.__new__"),
     )
 
 
@@ -401,6 +435,7 @@ def bv_binary_cases(sizes=(256,)):
                             variants.append(tuple(v))
                 for va, vb in variants:
                     out.append(bv_binary_case(method, va, vb, size))
+            out.append(bv_binary_case(method, "term", "same", size))
     return out
 
 
@@ -1063,6 +1098,8 @@ def run_arm_cases():
 
     for name, (opcode, arity) in WORD_OPS.items():
         shapes = list(itertools.product(STACK_KINDS, repeat=arity)) if arity < 3 else list(itertools.product(("int", "term", "sym"), repeat=arity))
+        if arity == 2:
+            shapes.append(("term", "same"))  # DUP1; op: both operands are one term (z3 folds x == x, x - x, x ^ x ...)
         shapes += [("underflow", n) for n in range(arity)]
         for shape in shapes:
 
@@ -1078,7 +1115,9 @@ def run_arm_cases():
                         state.stack.append(o)
                 else:
                     state.stack.append(marker)
-                    ops = [mk_word(ctx, "abc"[k], kd) for k, kd in enumerate(shape)]
+                    ops = []
+                    for k, kd in enumerate(shape):
+                        ops.append(ops[0] if kd == "same" else mk_word(ctx, "abc"[k], kd))
                     for o in reversed(ops):
                         state.stack.append(o)
                 ex.fetch_instruction()
@@ -1129,7 +1168,10 @@ def replay_run_arm(name, opcode, shape):
         vals, sub, objs = [], [], []
         for k, kd in enumerate(shape):
             nm = "abc"[k]
-            if kd in ("T", "F"):
+            if kd == "same":
+                objs.append(objs[0])
+                vals.append(vals[0])
+            elif kd in ("T", "F"):
                 objs.append(hb.TRUE if kd == "T" else hb.FALSE)
                 vals.append(1 if kd == "T" else 0)
             elif kd == "sym":
@@ -1155,6 +1197,10 @@ def replay_run_arm(name, opcode, shape):
             outs = list(sevm.run(ex))
         except BaseException as e:  # noqa
             return {"reproduced": True, "detail": f"{desc}: SEVM.run raised {type(e).__name__}: {e}"}
+        if not singletons_intact():
+            d = f"{desc}: afterwards TRUE=(con_val={hb.TRUE.con_val!r}, sym_val={hb.TRUE.sym_val!r}) FALSE=(con_val={hb.FALSE.con_val!r}, sym_val={hb.FALSE.sym_val!r}): the shared singletons were re-initialised"
+            restore_singletons()
+            return {"reproduced": True, "detail": d}
         if len(outs) != 1:
             return {"reproduced": None, "detail": f"{desc}: {len(outs)} paths"}
         o = outs[0]
@@ -1186,6 +1232,12 @@ def build_cases(tier="quick"):
     cases += arith_cases()
     cases += sym_byte_cases()
     cases += run_arm_cases()
+    # SIGNEXTEND's size operand is resolved through the path's table of learnt equalities (ex.int_of): the result is only that of
+    # THIS path's inputs if sibling paths do not share the table (C02's unit)
+    from contracts import c02
+    from contracts.common import rewrap
+
+    cases += rewrap(PROP, c02.path_cases(), "operand-substitution-owned", lambda c: "Path.branch" in c.unit)
     return cases
 
 
@@ -1242,7 +1294,46 @@ def grounds():
             out.append((oid.split("/", 1)[1], ok, f"{goal.sexpr()[:200]} [{dt:.1f}s]", be))
         return out
 
-    return [Ground(f"{PROP}/lemma", lemmas)]
+    return [Ground(f"{PROP}/lemma", lemmas), Ground(f"{PROP}/sevm.abstraction-tables#name-is-the-definition", ground_abstraction_names, sources=("halmos.solve:refine",))]
+
+
+def ground_abstraction_names():
+    """the meaning obligations above are proved `under the exact definitions of the arithmetic abstractions`, taken by the ROLE
+    of each table entry (f_mod[264] is the remainder ADDMOD uses ...).  What the assertion solver is given is decided by the NAME
+    of the function alone (solve.refine rewrites `declare-fun f_evm_<op>_<n>`): name and role must denote the same operation"""
+    import re as _re
+
+    out = []
+    for f, body in DEFS:
+        n = f.domain(0).size()
+        x, y = z3.BitVec("x", n), z3.BitVec("y", n)
+        role = z3.substitute_vars(body, x, y)
+        m = _re.fullmatch(r"f_evm_(bvudiv|bvurem|bvsdiv|bvsrem|bvmul|exp)_(\d+)", f.name())
+        oid = f"{f.name()} (width {n})"
+        if not m:
+            out.append((oid, False, f"the name {f.name()!r} is not one solve.refine recognises"))
+            continue
+        op, suffix = m.group(1), int(m.group(2))
+        zero = z3.BitVecVal(0, n)
+        named = {"bvmul": lambda: x * y, "bvudiv": lambda: z3.If(y == zero, zero, z3.UDiv(x, y)), "bvurem": lambda: z3.If(y == zero, zero, z3.URem(x, y)), "bvsdiv": lambda: z3.If(y == zero, zero, x / y), "bvsrem": lambda: z3.If(y == zero, zero, z3.SRem(x, y)), "exp": lambda: None}[op]()
+        if suffix != n:
+            out.append((oid, False, f"the width in the name ({suffix}) is not the width of the function ({n}): solve.refine would leave it undefined"))
+            continue
+        if named is None:
+            out.append((oid, f is hs.f_exp, "exponentiation stays abstract (models that depend on it are labelled potentially invalid)"))
+            continue
+        if z3.eq(z3.simplify(role), z3.simplify(named)):
+            out.append((oid, True, "role and name denote the same operation"))
+            continue
+        wit = None
+        for xv, yv in ((7, 2), (9, 4), (1, 3), ((1 << n) - 1, 5), (5, 0)):
+            a = z3.simplify(z3.substitute(role, (x, z3.BitVecVal(xv, n)), (y, z3.BitVecVal(yv, n))))
+            b = z3.simplify(z3.substitute(named, (x, z3.BitVecVal(xv, n)), (y, z3.BitVecVal(yv, n))))
+            if not z3.eq(a, b):
+                wit = (xv, yv, a, b)
+                break
+        out.append((oid, False, f"the table entry is used as `{str(z3.simplify(role))[:60]}` but its name makes solve.refine define it as {op}: " + (f"for x = {wit[0]}, y = {wit[1]} the instruction's result denotes {wit[2]} while the solver computes {wit[3]}" if wit else "no concrete difference found on the probe points")))
+    return out
 
 
 def bounded():
